@@ -147,6 +147,11 @@ EDGES = [
     (VM + r"VolatileArrayRef::ref_at$", r"diverge", r"^panic!assert$", "P", "documented: panics when index is out of range (program logic)"),
     (VM + r"VolatileArrayRef::ref_at$", r"Overflow:Mul", r"^\$2,VolatileArrayRef::element_size\(\$1\)$", "N",
      "index < nelem dominates and nelem*size_of::<T>() fits (constructor invariant)", r"Lt\(\$2,\$1\.nelem\)"),
+    (VM + r"VolatileArrayRef::\w+$", r"Overflow:Mul", r"^(?P<n>.+),(?:VolatileArrayRef::element_size\(\$1\)|mem::size_of<T>\(\))$", "N",
+     "an element count or index that is at most nelem, scaled by size_of::<T>(): at most nelem*size_of::<T>(), which fits (constructor invariant)",
+     r"Le\({n},\$1\.nelem\)"),
+    (VM + r"VolatileArrayRef::\w+$", r"Overflow:Mul", r"^(?:VolatileArrayRef::element_size\(\$1\)|mem::size_of<T>\(\)),(?P<n>.+)$", "N",
+     "as above, operands in the other order", r"Le\({n},\$1\.nelem\)"),
     (VM + r"VolatileArrayRef::copy_from$", r"Overflow:Sub", r"^var,PtrGuardMut::as_ptr\(VolatileArrayRef::ptr_guard_mut\(\$1\)\)$", "I",
      "ptr starts at start and is only advanced"),
     (VM + r"VolatileArrayRef::copy_to$", r"offset_from", r"^const_ptr::offset_from\(var,var\)$", "I",
